@@ -32,7 +32,7 @@ COMPONENTS = {
              "csv", "io.TextIOWrapper/BufferedReader", "zipfile", "xml.etree.ElementTree", "xlrd"],
     "stub": ["SimFS/SimRaw", "text / ODF / XLSX peers (encoders)", "scheduler-driven client (eager / lazy)"],
 }
-PROBES_REQUIRED = ["error-inspected-late", "culprit-last-column", "culprit-right-after-header", "short-row", "long-row",
+PROBES_REQUIRED = ["zero-item-row", "error-inspected-late", "culprit-last-column", "culprit-right-after-header", "short-row", "long-row",
                    "format:delimited", "format:fixed", "format:ods", "format:excel", "check-rejection"]
 
 
@@ -118,6 +118,8 @@ def execute(scenario):
             if payload["kind"] == "check":
                 result.probe("check-rejection")
     for row in raw_rows[spec.get("header", 0):]:
+        if len(row) == 0:
+            result.probe("zero-item-row")
         if len(row) < count:
             result.probe("short-row")
         if len(row) > count:
